@@ -179,11 +179,12 @@ Spec == Init /\ [][Next]_vars
 (* four - a command that succeeds, so that random walks build up state     *)
 SimCmd ==
   /\ phase = "run" /\ step < Len(PrefixOf(Preset)) + MaxSteps
-  /\ LET k    == RandomElement(Kinds)
-         all  == {c \in CmdsOfKind(k, s, step + 1) : Clear(c, s)}
-         live == {c \in all : Step(c, s, Devs).res = "ok" /\ Step(c, s, Devs).s # s}
-         pool == IF live # {} /\ RandomElement(1..4) > 1 THEN live ELSE all IN
-     IF pool = {} THEN \E c \in CmdsAt(s, step + 1) : Do(c) ELSE Do(RandomElement(pool))
+  /\ \E k \in {RandomElement(Kinds)}, dice \in {RandomElement(1..4)} :
+       LET all  == {c \in CmdsOfKind(k, s, step + 1) : Clear(c, s)}
+           live == {c \in all : Step(c, s, Devs).res = "ok" /\ Step(c, s, Devs).s # s}
+           pool == IF live # {} /\ dice > 1 THEN live ELSE all IN
+       IF pool = {} THEN \E c \in CmdsAt(s, step + 1) : Do(c)
+       ELSE \E c \in {RandomElement(pool)} : Do(c)
 SimSpec == Init /\ [][SimCmd \/ End]_vars
 
 (* ---- what TLC checks on the design -------------------------------------*)
@@ -192,7 +193,7 @@ NoViolation == obs.viol = {}
 TypeOK ==
   /\ s.creds \subseteq [name : {"a", "b"}, pw : Pws \cup {"p1"}]
   /\ s.accts \subseteq {"a", "b", "aW", "x"}
-  /\ \A m \in s.mboxes : m.acct \in s.accts /\ m.uv \in 1..s.nuv /\ m.next >= 1
+  /\ \A m \in s.mboxes : m.acct \in s.accts /\ m.next >= 1
   /\ \A x \in s.msgs : x.uid >= 1
   /\ step \in 0..(Len(PrefixOf(Preset)) + MaxSteps)
 
